@@ -989,4 +989,53 @@ example : FromOK (cfgOf false false false false false false false) exTree ['/','
   FromOK.partial (c := '/') ⟨rfl, rfl, rfl⟩ rfl exTree _ _ _ _
     (by decide +kernel) (by decide +kernel) (by decide +kernel) (by decide +kernel) (by decide +kernel)
 
+
+/-! ## the fold law for `replace_logic` -/
+
+/-- `shift_and_replace_nodes` / `copy_and_replace_nodes_from_tree_to_tree` with several pairs ≡ the
+single-pair calls in sequence (for lists that pass the up-front validation) -/
+theorem replace_pairs_fold (cfg : Cfg) (st : St) (p : Str × Option Str) (ps : List (Str × Option Str))
+    (hv : validReplace cfg st (p :: ps) = true) :
+    replaceNodes cfg st (p :: ps)
+      = (replaceNodes cfg st [p]).bind (fun st' => replaceNodes cfg st' ps) := by
+  rw [validReplace_cons] at hv
+  simp only [Bool.and_eq_true] at hv
+  obtain ⟨hv1, hv2⟩ := hv
+  simp only [replaceNodes, validReplace_cons cfg st p ps, hv1, hv2, Bool.and_self, if_true,
+    List.map_cons, List.map_nil, loopReplace]
+  cases hs : stepReplace cfg st (norm cfg p) with
+  | error e => simp [Except.bind]
+  | ok st' =>
+    obtain ⟨h1, h2⟩ := stepReplace_name hs
+    have h3 : st'.tree.name = st.tree.name := by
+      unfold St.tree; rw [h2]; cases st.src <;> simp [h1]
+    simp [Except.bind, validReplace_congr h1 h3, hv2]
+
+/-- the source tree of `copy_and_replace_nodes_from_tree_to_tree` is untouched, for every flag
+combination and pair list -/
+theorem replace_source_untouched (cfg : Cfg) (st : St) (ps : List (Str × Option Str)) {st' : St}
+    (h : replaceNodes cfg st ps = .ok st') : st'.src = st.src := by
+  unfold replaceNodes at h
+  split at h
+  · have key : ∀ (qs : List (Str × Option Str)) (st : St), loopReplace cfg st qs = .ok st' →
+        st'.src = st.src := by
+      intro qs
+      induction qs with
+      | nil => intro st h; simp [loopReplace] at h; rw [h]
+      | cons q qs ih =>
+        intro st h
+        simp only [loopReplace] at h
+        cases hs : stepReplace cfg st q with
+        | error e => rw [hs] at h; simp at h
+        | ok st1 => rw [hs] at h; rw [ih st1 h, (stepReplace_name hs).2]
+    exact key _ _ h
+  · simp at h
+
+example : replaceNodes (cfgOf false false false false false false true) (st0 exRep 8)
+      [(pathStr '/' ['a'] [['y'], ['q']], some (pathStr '/' ['a'] [['D']])),
+       (pathStr '/' ['a'] [['x']], some (pathStr '/' ['a'] [['F']]))]
+    = .ok (st0 (.node 0 ['a'] [] [.node 5 ['q'] [] [], .node 4 ['y'] [] [], .node 1 ['x'] [] [],
+        .node 7 ['z'] [] []]) 8) := by
+  decide +kernel
+
 end C08
